@@ -8,6 +8,8 @@ CONSTANTS
  MaxLevel = 3
  ShallowSlots = {}
  KeepParent = FALSE
+ AliasArgs = {}
+ MergeInPlace = FALSE
 SPECIFICATION Spec
 VIEW StructView
 CONSTRAINT LevelBound
